@@ -6,13 +6,32 @@ from ..cfg import guarded_by
 from .. import q
 
 
+def token_tests(expr, method):
+    """[(literal, call)] for calls <recv>.<method>(X) inside expr: X a string literal, or the variable of a generator / comprehension
+    that runs over a literal tuple / list (`any(args.has_option_token(t) for t in ("--quiet", "-q"))`)."""
+    out = []
+    in_comp = set()
+    for n in ast.walk(expr):
+        if isinstance(n, (ast.GeneratorExp, ast.ListComp, ast.SetComp)):
+            comp_vars = {}
+            for g in n.generators:
+                if isinstance(g.target, ast.Name) and isinstance(g.iter, (ast.Tuple, ast.List, ast.Set)) and all(isinstance(x, ast.Constant) for x in g.iter.elts):
+                    comp_vars[g.target.id] = [x.value for x in g.iter.elts]
+            for c in ast.walk(n.elt):
+                if isinstance(c, ast.Call) and isinstance(c.func, ast.Attribute) and c.func.attr == method and c.args and isinstance(c.args[0], ast.Name) and c.args[0].id in comp_vars:
+                    in_comp.add(id(c))
+                    out.extend((v, c) for v in comp_vars[c.args[0].id])
+    for n in ast.walk(expr):
+        if isinstance(n, ast.Call) and isinstance(n.func, ast.Attribute) and n.func.attr == method and n.args and id(n) not in in_comp:
+            a = n.args[0]
+            if isinstance(a, ast.Constant):
+                out.append((a.value, n))
+    return out
+
+
 def _lits_in_cond(expr, method):
     """string literals X of calls <recv>.<method>(X) inside expr"""
-    out = []
-    for n in walk_no_nested(expr):
-        if isinstance(n, ast.Call) and isinstance(n.func, ast.Attribute) and n.func.attr == method and n.args and isinstance(n.args[0], ast.Constant):
-            out.append(n.args[0].value)
-    return out
+    return [v for v, _ in token_tests(expr, method)]
 
 
 def guards_of(cfg, node, method):
@@ -45,6 +64,13 @@ def guards_any(cfg, node, method):
     return out
 
 
+def _anc_nodes(n):
+    p = getattr(n, "_parent", None)
+    while p is not None:
+        yield p
+        p = getattr(p, "_parent", None)
+
+
 def io_setters_rule(ctx, r, names):
     """SIBLING rule shared with C10: IO.set_X forwards its argument to both outputs, on every path."""
     io_cls = ctx.cls("clikit.api.io.io.IO")
@@ -59,6 +85,22 @@ def io_setters_rule(ctx, r, names):
         for c in q.method_calls(m, name):
             if is_self_attr(c.func.value) and c.args and isinstance(c.args[0], ast.Name) and c.args[0].id == prm[0]:
                 recvs.setdefault(c.func.value.attr, set()).update(n.id for n in cfg.nodes_of(c))
+        # loop form: for o in (self._output, self._error_output) / in a helper that returns that tuple:  o.set_X(value)
+        for loop in [n for n in walk_no_nested(m.node) if isinstance(n, ast.For) and isinstance(n.target, ast.Name)]:
+            it = loop.iter
+            if isinstance(it, ast.Call) and isinstance(it.func, ast.Attribute) and isinstance(it.func.value, ast.Name) and it.func.value.id == "self" and it.func.attr in io_cls.methods and not it.args:
+                rets = q.returns(io_cls.methods[it.func.attr])
+                it = rets[0].value if len(rets) == 1 else None
+            if not (isinstance(it, (ast.Tuple, ast.List)) and it.elts and all(is_self_attr(e) for e in it.elts)):
+                continue
+            head = cfg.node_of(loop)
+            body_start = [x for x in cfg.succs(head.id) if cfg.nodes[x].kind == "loop_body"]
+            for c in q.method_calls(m, name):
+                if isinstance(c.func.value, ast.Name) and c.func.value.id == loop.target.id and c.args and isinstance(c.args[0], ast.Name) and c.args[0].id == prm[0] and loop in list(_anc_nodes(c)):
+                    ids = {n.id for n in cfg.nodes_of(c)}
+                    if body_start and all(cfg.all_paths_hit(b, ids, [head.id]) for b in body_start):
+                        for e in it.elts:
+                            recvs.setdefault(e.attr, set()).add(head.id)
         if not {"_output", "_error_output"} <= set(recvs):
             r.fail(m, m.node, "IO.%s -> %s" % (name, sorted(recvs)), "IO.%s reaches only %s: the other stream ignores the switch" % (name, sorted(recvs) or "nothing"))
             continue
@@ -107,12 +149,13 @@ def run(ctx):
     tested_tokens = {}
     tested_parsed = {}
     for fi in dac.methods.values():
-        for c in q.calls(fi):
-            if isinstance(c.func, ast.Attribute) and c.args and isinstance(c.args[0], ast.Constant) and isinstance(c.args[0].value, str):
-                if c.func.attr == "has_option_token":
-                    tested_tokens.setdefault(c.args[0].value, (fi, c))
-                elif c.func.attr in ("is_option_set", "option"):
-                    tested_parsed.setdefault(c.args[0].value, (fi, c))
+        for v, c in token_tests(fi.node, "has_option_token"):
+            if isinstance(v, str):
+                tested_tokens.setdefault(v, (fi, c))
+        for meth in ("is_option_set", "option"):
+            for v, c in token_tests(fi.node, meth):
+                if isinstance(v, str):
+                    tested_parsed.setdefault(v, (fi, c))
     for long_, (short, flags, call) in sorted(declared.items()):
         if "NO_VALUE" not in flags:
             continue
@@ -359,6 +402,8 @@ def run(ctx):
         a = atom(e)
         if a:
             return env[a]
+        if isinstance(e, ast.Name) and ("local:" + e.id) in env:
+            return env["local:" + e.id]
         if isinstance(e, ast.BoolOp):
             vals = [ev(v, env) for v in e.values]
             if any(v is None for v in vals):
@@ -380,24 +425,35 @@ def run(ctx):
         stack = [(icfg.entry.id, "unset", frozenset())]
         seen = set()
         while stack:
-            nid, val, _ = stack.pop()
-            if (nid, val) in seen:
+            nid, val, loc = stack.pop()
+            if (nid, val, loc) in seen:
                 continue
-            seen.add((nid, val))
+            seen.add((nid, val, loc))
             nd = icfg.nodes[nid]
             if nid == icfg.exit.id:
                 out.add(val)
                 continue
+            env2 = dict(env)
+            env2.update(dict(loc))
             if nd.kind == "stmt" and isinstance(nd.ast, ast.Assign) and any(is_self_attr(t, field) for t in nd.ast.targets):
-                val = ev(nd.ast.value, env)
+                val = ev(nd.ast.value, env2)
+            elif nd.kind == "stmt" and isinstance(nd.ast, ast.Assign) and len(nd.ast.targets) == 1 and isinstance(nd.ast.targets[0], ast.Name):
+                # a boolean local that carries (part of) the decision
+                lv = ev(nd.ast.value, env2)
+                d_ = dict(loc)
+                if lv is None:
+                    d_.pop("local:" + nd.ast.targets[0].id, None)
+                else:
+                    d_["local:" + nd.ast.targets[0].id] = lv
+                loc = frozenset(d_.items())
             succs = icfg.succs(nid)
             if nd.kind == "cond":
-                v = ev(nd.ast, env)
+                v = ev(nd.ast, env2)
                 if v is not None:
                     t_, f_ = icfg.true_of(nd), icfg.false_of(nd)
                     succs = [(t_ if v else f_).id] if (t_ if v else f_) is not None else succs
             for s_ in succs:
-                stack.append((s_, val, frozenset()))
+                stack.append((s_, val, loc))
         return out
 
     import itertools
